@@ -290,10 +290,13 @@ Definition probe_mismatch_k (d : wdesc) (vcv vup : option (list svar)) (p : prob
             end)
   end.
 
+(* A refusal of a declaration in a container YAML cannot produce is never a disagreement: the theorems say nothing
+   about a declaration that is refused, whatever the model expected. *)
 Definition kcase_mismatch (kd : kdesc) (d : wdesc) (kc : c10_kcase) : bool :=
   let c := kc_case kc in
   let l := kc_dvars kc in
   negb (Nat.eqb (List.length (kc_decl kc)) (List.length (c_vars c))) ||
+  if negb (canonical (kc_decl kc)) && match c_bounds c with None => true | Some _ => false end then false else
   if accepted_objects l then
     (match kc_vals kc with
      | Some vals => negb (all2 pval_eqb (map (norm (kd_norm kd)) (kc_decl kc)) vals)
